@@ -1,14 +1,14 @@
-import MayVerif.Proof.Runtime.Park.Tac
+import MayVerif.Proof.Runtime.Park.StepP0
+import MayVerif.Proof.Runtime.Park.StepP1
+import MayVerif.Proof.Runtime.Park.StepP2
 namespace MayVerif.Park
 
-set_option maxHeartbeats 4000000 in
 theorem inv_stepP (s s' : St) (e : Env) (h : Inv s) (hs : stepP s e = some s') : Inv s' := by
-  destruct_inv
-  unfold stepP at hs
-  split at hs
-  all_goals (try (split at hs))
-  all_goals (try (simp only [Option.some.injEq, reduceCtorEq] at hs))
-  all_goals (try (subst hs))
-  all_goals (first | contradiction | fin_inv)
+  have h3 : pgrp s.ppc = 0 ∨ pgrp s.ppc = 1 ∨ pgrp s.ppc = 2 := by
+    cases s.ppc <;> simp [pgrp]
+  rcases h3 with h0 | h1 | h2
+  · exact inv_stepP0 s s' e h h0 hs
+  · exact inv_stepP1 s s' e h h1 hs
+  · exact inv_stepP2 s s' e h h2 hs
 
 end MayVerif.Park
